@@ -10,9 +10,9 @@ PROPS = {
     "C01": dict(mc=["TypeOK", "ReadsMatchModel", "DelReportsPresence"],
                 trace=["C01_OpensAndAnswers", "C01_Results", "C01_Gets", "C01_DelReportsPresence"]),
     "C02": dict(mc=["RebuildAgrees"], trace=["C02_ReopenKeeps", "C02_ReopenFails"]),
-    "C05": dict(mc=["ReadsMatchModel", "RebuildAgrees"], trace=["C05_MergeKeeps", "C05_ReopenFails"]),
+    "C05": dict(mc=["ReadsMatchModel", "RebuildAgrees", "AllFilesKnown"], trace=["C05_MergeKeeps", "C05_ReopenFails"]),
     "C12": dict(mc=["HintsAreAccelerator"], trace=["C12_HintsAreAccelerator"]),
-    "C13": dict(mc=["MergeShrinks", "FullMergeIsMinimal", "MergeIdempotentInSize"],
+    "C13": dict(mc=["MergeShrinks", "FullMergeIsMinimal", "MergeIdempotentInSize", "AllFilesKnown"],
                 trace=["C13_MergeShrinks", "C13_FullMergeIsMinimal", "C13_MergeIdempotentInSize"], scan=True),
     "C19": dict(mc=["StatsTruth", "NoUnderflow"], trace=["C19_StatsTruth", "C19_NoUnderflow"], scan=True),
 }
@@ -32,6 +32,7 @@ CONSTRAINT OpsBound
 {invs}
 CHECK_DEADLOCK FALSE
 """
+GEN_EXTRA = "\nCONSTANT WantTags = {}\n"      # Gen_Seq.tla: print every behaviour
 
 TRACE_TMPL = """SPECIFICATION TSpec
 CONSTANTS
@@ -84,16 +85,24 @@ def model_check(v, prop, tier):
             raise ToolError(f"specification check failed for {prop}: {r.violated or r.eval_error}\n{r.out[-3000:]}")
 
 
+K3 = '{"k1", "k2", "k3"}'
+
+
 def generate(v, tier, tag):
-    """Spec -> impl: every client behaviour of the bounded instances, as JSON lines."""
-    plans = [("ops=3, 16 configs", 3, "MCConfigs"), ("ops=4, 2 configs", 4, "MCConfigsGen2")]
+    """Spec -> impl: every client behaviour of the bounded instances, as JSON lines; plus GUIDED sets: deeper instances
+    of which only the behaviours are printed that go through a situation the specification's own state recognises
+    (Gen_Seq.tla: tags) - here a merge whose newest eligible file is eligible by its size alone while an older,
+    larger file is taken only through the downward closure."""
+    plans = [("ops=3, 16 configs", 3, "MCConfigs", {}), ("ops=4, 2 configs", 4, "MCConfigsGen2", {})]
     if tier == "thorough":
-        plans = [("ops=4, 16 configs", 4, "MCConfigs"), ("ops=5, 2 configs", 5, "MCConfigsGen2")]
+        plans = [("ops=4, 16 configs", 4, "MCConfigs", {}), ("ops=5, 2 configs", 5, "MCConfigsGen2", {})]
+    guided = dict(keys=K3, vals='{"v1"}', ops='{"put", "del", "merge"}', want='{"closure-small"}')
+    plans.append((f"guided: 3 keys, ops={5 if tier == 'quick' else 6}, size-only selection with closure", 5 if tier == "quick" else 6, "MCConfigsSmallOnly", guided))
     behaviours = {}
-    for label, maxops, configs in plans:
-        cfg = write_cfg(f"gen_{tag}_{maxops}.cfg", MC_TMPL.format(
-            spec="GSpec", keys=K2, vals=V2, configs=configs, maxops=maxops, crashes=0, ops=ALL_OPS,
-            invs="INVARIANT Emit"))
+    for label, maxops, configs, g in plans:
+        cfg = write_cfg(f"gen_{tag}_{maxops}_{configs}.cfg", MC_TMPL.format(
+            spec="GSpec", keys=g.get("keys", K2), vals=g.get("vals", V2), configs=configs, maxops=maxops, crashes=0, ops=g.get("ops", ALL_OPS),
+            invs="INVARIANT Emit") + (GEN_EXTRA if not g else f"\nCONSTANT WantTags = {g['want']}\n"))
         r = tlc("Gen_Seq.tla", cfg, workers=NCPU, timeout=3000, xmx="16g", metatag=f"gen-{tag}-{maxops}")
         v.add_tlc("Gen_Seq " + label, r)
         if not r.ok:
@@ -104,9 +113,9 @@ def generate(v, tier, tag):
     out = os.path.join(OUT, "work", tag, "behaviours.jsonl")
     os.makedirs(os.path.dirname(out), exist_ok=True)
     n = 0
-    stats = dict(with_merge=0, with_reopen=0, with_rollover=0, with_hints=0)
+    stats = dict(with_merge=0, with_reopen=0, with_rollover=0, with_hints=0, tags={})
     with open(out, "w") as f:
-        f.write(json.dumps({"keys": {"k1": 1, "k2": 1}, "vals": {"v0": 0, "v1": 1}}) + "\n")
+        f.write(json.dumps({"keys": {"k1": 1, "k2": 1, "k3": 1}, "vals": {"v0": 0, "v1": 1}}) + "\n")
         for s in behaviours:
             b = json.loads(s)
             b["id"] = f"g{n}"
@@ -115,6 +124,8 @@ def generate(v, tier, tag):
             stats["with_reopen"] += "reopen" in ops
             stats["with_rollover"] += b.get("nfiles", 0) > 1 + ops.count("reopen") + ops.count("merge") * 2
             stats["with_hints"] += b.get("nhints", 0) > 0
+            for t in b.get("tags", []):
+                stats["tags"][t] = stats["tags"].get(t, 0) + 1
             f.write(json.dumps(b) + "\n")
             n += 1
     return out, n, stats
